@@ -196,7 +196,7 @@ class HostGrammar:
             'used': [r['used'] for r in rules],
             'tprec': self.tprec, 'tassoc': self.tassoc, 'tbytes': self.tbytes,
             'tnames': tn, 'ntnames': names_nt, 'ruletext': texts,
-            'lex': 'chars', 'lexterms': [], 'dflt': [], 'ctxr': [], 'noval': [], 'deflimits': True, 'lexobs': False, 'obsT': True, 'obsC': True,
+            'lex': 'chars', 'lexterms': [], 'dflt': [], 'ctxr': [], 'noval': [], 'nvterms': [], 'deflimits': True, 'lexobs': False, 'obsT': True, 'obsC': True,
             'alpha': [ord(t) for t in self.src.ts],
             'uterms': list(range(len(self.src.ts))),
         }
